@@ -1287,6 +1287,10 @@ class FuncRun:
             ex.obligations.append(('trap', ex.cur_cond, 'call ' + name + (' ' + str(I.args[0].val)[:80] if I.args and I.args[0].kind in ('cgep', 'global') else ''))); return None
         args = [ex.const(a, env, mem) for a in I.args]
         ex.stats['calls'] += 1
+        if name.startswith('%'):            # indirect call through a function pointer held in a register (unoptimised IR: functor arguments)
+            pv = env.get(name)
+            if isinstance(pv, Ptr) and isinstance(pv.obj, str) and pv.obj.startswith('g@') and pv.off == 0: name = pv.obj[1:]
+            else: raise Unsupported('indirect call through %s = %r' % (name, pv))
         if name in ex.mod.funcs:
             saved = ex.cur_cond
             r, m2 = ex.run(name, args, mem.copy(), ex.cur_cond)
